@@ -78,6 +78,10 @@ func main() {
 			var m MfrJ
 			c.LoadReplay(&m)
 			doMFR(c, m, true)
+		case "large":
+			var l LargeJ
+			c.LoadReplay(&l)
+			doLarge(c, s, l, true)
 		case "hist":
 			var h HistJ
 			c.LoadReplay(&h)
@@ -133,6 +137,7 @@ func main() {
 		"mhd: valid multihashes of 8 functions, every truncation / extension of some, hostile varints. " +
 		"new: 12 path shapes x key forms (base58, hex, HEX, CIDv0, CIDv1 in 8 multibases, 16 malformed kinds, hex without the digit 0, cross-form) x multihash functions x resource types (default and custom), direct call. " +
 		"e2e: real HTTP. real-client requests x preferJson x result lists (0 results; every nil/empty/binary context ID x metadata x provider shape alone; seeded lists of 2..5; lists with an unreadable provider); raw requests: 30 Accept headers x preferJson x {0,1,3 results}; key forms x multihash functions; path shapes; seeded combinations. " +
+		"large: result lists of 700 and 1500 results with 1 KiB metadata and of 5000 small results (JSON answers of 1 to 3 MiB) written through rwriter and read by client.Find (preferJson on / off), client.FindBatch (small, large, small) and raw as NDJSON; provider lists of 1200 (1 KiB metadata) and 6000 providers read by ListProviders; direct oracle: the same results in the same order. " +
 		"non-trivial = (e2e) >= 2 results, or 1 result on a raw request; (new) a well-formed key; (neg) >= 2 elements"
 	runNeg(c)
 	runPath(c)
@@ -148,4 +153,5 @@ func main() {
 	runAeText(c)
 	runMFR(c)
 	runEndpoints(c)
+	runLarge(c, s)
 }
